@@ -33,7 +33,7 @@ ASSUMPTIONS = [
 ]
 
 
-HIST_ALPHA = {'build': 10, 'repeat': 6, 'churn': 2, 'apply': 4, 'queries': 16, 'drop': 8, 'gc': 6, 'swap': 4, 'sift': 1, 'reorder_to': 2, 'declare': 2, 'undeclare': 4, 'var': 1, 'quantify': 1}
+HIST_ALPHA = {'fork': 2, 'build': 10, 'repeat': 6, 'churn': 2, 'apply': 4, 'queries': 16, 'drop': 8, 'gc': 6, 'swap': 4, 'sift': 1, 'reorder_to': 2, 'declare': 2, 'undeclare': 4, 'var': 1, 'quantify': 1}
 
 
 def _hist_nontrivial(w):
@@ -41,7 +41,7 @@ def _hist_nontrivial(w):
 
 
 def _hist_plan(tier, seed):
-    cfgs = [dict(kind='bdd', nmax=4, init_vars=3), dict(kind='bdd', nmax=5, init_vars=4), dict(kind='autoref', nmax=4, init_vars=3), dict(kind='bdd', nmax=10, init_vars=9, semantic=False), dict(kind='bdd', nmax=12, init_vars=11, semantic=False), dict(kind='autoref', nmax=10, init_vars=10, semantic=False)]
+    cfgs = [dict(kind='bdd', nmax=4, init_vars=3), dict(kind='bdd', nmax=4, init_vars=3, ctor='levels', ctor_seed=2), dict(kind='autoref', nmax=5, init_vars=4, ctor='levels', ctor_seed=5), dict(kind='bdd', nmax=5, init_vars=4), dict(kind='autoref', nmax=4, init_vars=3), dict(kind='bdd', nmax=10, init_vars=9, semantic=False), dict(kind='bdd', nmax=12, init_vars=11, semantic=False), dict(kind='autoref', nmax=10, init_vars=10, semantic=False)]
     return [dict(kind='history', seed=seed * 1000 + 500 + s, cfgs=cfgs,
                  examples=1200 if tier == 'thorough' else 300,
                  min_len=10, max_len=45)
